@@ -1,5 +1,6 @@
 import Driver.Codec
 import Cirbo.Model.Gen
+import Cirbo.Model.Gen2
 /-! `gen` requests: run one generator program on a host circuit with a pinned uuid counter. -/
 open Lean Cirbo Driver
 
@@ -28,6 +29,20 @@ def jWeighted (l : List (Nat × Label)) : Json :=
 
 def jLists (l : List (List Label)) : Json := Json.arr (l.map jStrs).toArray
 
+def getOptStrs (j : Json) (k : String) : Except String (Option (List String)) :=
+  match j.getObjVal? k with
+  | .ok Json.null => pure none
+  | .ok v => do pure (some (← strs v))
+  | .error _ => pure none
+
+def getOptStr (j : Json) (k : String) : Option String :=
+  match j.getObjVal? k with
+  | .ok (Json.str s) => some s
+  | _ => none
+
+def jPairLists (p : List Label × List Label) : Json := Json.arr #[jStrs p.1, jStrs p.2]
+def jListLabel (p : List Label × Label) : Json := Json.arr #[jStrs p.1, Json.str p.2]
+
 def finish {α} (f : α → Json) (p : Prog α) (st : GSt) : Json :=
   match p.run st with
   | .error e => err e
@@ -52,6 +67,25 @@ def genOp (j : Json) : Except String Json := do
   | "add_sum_n_weighted_bits_naive" => pure (finish jWeighted (addSumWeightedNaive (← getWeighted a "ins") (← getBasis a)) st)
   | "add_sum_pow2_m1" =>
     pure (finish jLists (addSumPow2M1 (← getStrs a "ins") (getBool a "big_endian") (← getBasis a)) st)
+  | "add_sub2" => pure (finish jStrs (addSub2 (← getStrs a "ins") (getBool a "big_endian")) st)
+  | "add_sub3" => pure (finish jStrs (addSub3 (← getStrs a "ins") (getBool a "big_endian")) st)
+  | "add_sub_two_numbers" =>
+    pure (finish jStrs (addSubTwoNumbers (← getStrs a "a") (← getStrs a "b") (getBool a "big_endian")) st)
+  | "add_subtract_with_compare" =>
+    pure (finish jListLabel (addSubtractWithCompare (← getStrs a "a") (← getStrs a "b") (getBool a "big_endian")) st)
+  | "add_equal" => pure (finish Json.str (addEqual (← getStrs a "ins") (← getNat a "num")) st)
+  | "add_plus_one" =>
+    pure (finish jStrs (addPlusOne (← getStrs a "ins") (← getOptStrs a "result_labels") (getBool a "add_outputs") (getBool a "big_endian")) st)
+  | "add_if_then_else" =>
+    pure (finish Json.str (addIfThenElse (← (← a.getObjVal? "if").getStr?) (← (← a.getObjVal? "then").getStr?)
+      (← (← a.getObjVal? "else").getStr?) (getOptStr a "result_label") (getBool a "add_outputs")) st)
+  | "add_pairwise_if_then_else" =>
+    pure (finish jStrs (addPairwiseIfThenElse (← getStrs a "if") (← getStrs a "then") (← getStrs a "else")
+      (← getOptStrs a "result_labels") (getBool a "add_outputs")) st)
+  | "add_pairwise_xor" =>
+    pure (finish jStrs (addPairwiseXor (← getStrs a "x") (← getStrs a "y") (← getOptStrs a "result_labels") (getBool a "add_outputs")) st)
+  | "add_div_mod" => pure (finish jPairLists (addDivMod (← getStrs a "a") (← getStrs a "b") (getBool a "big_endian")) st)
+  | "add_sqrt" => pure (finish jStrs (addSqrt (← getStrs a "ins") (getBool a "big_endian")) st)
   | _ => throw s!"unknown generator {name}"
 
 end GenDrv
